@@ -9,6 +9,18 @@ CHECKS = {
    technique="TLA+ reference semantics (GqlRef/GqlExec) + TLC trace validation of executions of probe servers generated at check time",
    text="Executions of servers generated from /repo's current templates (several layouts/options) for random operations x resolver/directive outcome plans are recorded at the user-code linearization points and validated by TLC against the property-level TLA+ module GqlExec, whose Respond step demands equality with the reference execution algorithm GqlRef (data incl. key order, error bag with paths, resolver positions invoked exactly once); responses must also be identical across all generated configurations.",
    note="Trusted: TLC, the universal resolver (reflection-built values), the JSON->tagged-tree projection. Error messages are abstracted to classes; error order is not compared."),
+ "C04": dict(level=MC, ref="DESIGN.md §5 C04",
+   technique="TLA+ reference semantics with fault plans (GqlRef/GqlExec) + TLC trace validation; faults injected at every kind of user code of servers generated at check time",
+   text="Resolver / schema-directive / field-interceptor / root-field-interceptor errors and panics are injected by plan at positions of random operations (calling goroutine, concurrent siblings, list-element goroutines) on servers generated from /repo's templates; TLC validates every recorded execution against GqlExec: data equals the reference (only the propagated subtree is nulled), exactly one error per failure at its path, one recover-hook call per panic; a died or unresponsive server process is a violation by observation.",
+   note="Trusted: TLC, universal resolver, process supervision. Serialization-time panics and input-unmarshaler faults are not yet injected (see DESIGN)."),
+ "C05": dict(level=MC, ref="DESIGN.md §5 C05",
+   technique="TLA+ model of the executor's concurrency skeleton (ExecConc) checked by TLC incl. liveness; every edge of its state graph replayed into generated servers with gates + cancellation; observed events trace-validated; cancel-point sweep",
+   text="TLC decides Termination/NoLeak/Ends (liveness under fairness) on ExecConc for list length x worker_limit x deferred groups x transport kind; an edge-covering set of paths of each state graph is replayed into the real generated code (resolver gates as scheduler, cancellation at the modelled instant), hangs and surviving goroutines are observed directly (goroutine dump), and the recorded events are validated by TLC against ExecConcTrace (semaphore bound, payload count, nothing alive at the end). A second part cancels random operations (lists, nested lists, @defer) after every k-th resolver event for worker_limit 0/1/2(/8) and both transport kinds.",
+   note="Trusted: TLC, goroutine-dump filtering by package path, 5 s hang bound / 1.5 s leak polling. Resolvers honour cancellation (the property's assumption)."),
+ "C06": dict(level=MC, ref="DESIGN.md §5 C06",
+   technique="TLC trace validation against GqlExec under gated adversarial schedules (LIFO/FIFO/random completion orders) on -race builds of generated servers",
+   text="The same operations and plans are executed under several resolver completion orders enforced by gates (reversed, FIFO, seeded random) on race-detector builds of servers generated from /repo; TLC validates each execution against GqlExec (response equals the schedule-free reference Ref, hence all schedules agree; for mutations the action guard SerialOK demands that root field i+1 starts only after root field i's whole subtree ended). A race-detector report is a violation.",
+   note="Trusted: TLC, Go race detector, the in-probe scheduler's quiescence window (affects only which orders are explored)."),
 }
 NOT_YET = {}
 def main():
